@@ -35,6 +35,7 @@ class Scheduler:
         self.sizes = []  # size of the k-th iterated object
         self.alive = []  # keep iterated objects alive so that ids are not reused
         self.choice_points = 0
+        self.diverged = False
 
     def order(self, obj, elements):
         els = sorted(elements, key=keyof)
@@ -53,7 +54,12 @@ class Scheduler:
         d = self.deviations.get(k)
         if d is None:
             return els
-        perm = nth_permutation(len(els), d)
+        try:
+            perm = nth_permutation(len(els), d)
+        except IndexError:
+            # the k-th iterated object is smaller than in the default run (the run diverged from the prefix): no deviation to apply
+            self.diverged = True
+            return els
         return [els[i] for i in perm]
 
 
